@@ -22,6 +22,9 @@ pub struct Knobs {
   /// weights: define, mdefine, assign, idx-assign, op-assign, idx-op-assign, field-assign, tuple-assign, destructure, read, map-assign
   pub weights: Vec<u32>,
   pub max_dim: usize,
+  /// the session starts with a prelude of user functions, and sources may call them
+  #[serde(default)]
+  pub functions: bool,
 }
 
 pub fn draw_knobs(rng: &mut Rng, profile: &str) -> Knobs {
@@ -54,7 +57,8 @@ pub fn draw_knobs(rng: &mut Rng, profile: &str) -> Knobs {
   }
   if weights[0] + weights[1] == 0 { weights[1] = 4; }
   let max_dim = 2 + rng.usize(3);
-  Knobs { profile: profile.to_string(), names, len, fault_pm, kinds, classes, weights, max_dim }
+  let functions = profile == "C05" && rng.chance(1, 2);
+  Knobs { profile: profile.to_string(), names, len, fault_pm, kinds, classes, weights, max_dim, functions }
 }
 
 const F64S: [f64; 14] = [0.0, 1.0, 2.0, 3.0, 5.0, 7.0, 10.0, 42.0, 100.0, -1.0, -3.0, 0.5, 1.5, 2.25];
@@ -208,8 +212,27 @@ fn gen_sub(rng: &mut Rng, r: usize, c: usize, oob: bool, for_vector_src: bool) -
   }
 }
 
+pub const PRELUDE: &str = "inc(x<f64>) = z<f64> :=\n    z := x + 1.\naddtwo(x<f64>, y<f64>) = z<f64> :=\n    p := x + 0\n    z := p + y.\nbad(x<f64>) = z<f64> :=\n    y := x + 1\n    q := y + nosuchvar\n    z := q + 1.\nshadow(x<f64>) = z<f64> :=\n    y := x * 2\n    p := y + 1\n    z := p - 3.";
+
+thread_local! { static FUNCTIONS_ON: std::cell::Cell<bool> = const { std::cell::Cell::new(false) }; }
+pub fn set_functions(on: bool) { FUNCTIONS_ON.with(|f| f.set(on)); }
+
+fn call_source(rng: &mut Rng, m: &Model) -> Expr {
+  let arg = |rng: &mut Rng| -> Expr {
+    let holders = names_where(m, |b| matches!(b.v, SV::F64(_)));
+    if !holders.is_empty() && rng.chance(1, 2) { Expr::Var((*rng.pick(&holders)).clone()) } else { Expr::Lit(gen_scalar(rng, "f64")) }
+  };
+  match rng.below(8) {
+    0 | 1 => Expr::Call("inc".into(), vec![arg(rng)]),
+    2 | 3 => Expr::Call("addtwo".into(), vec![arg(rng), arg(rng)]),
+    4 | 5 => Expr::Call("shadow".into(), vec![arg(rng)]),
+    _ => Expr::Call("inc".into(), vec![Expr::Call("shadow".into(), vec![arg(rng)])]),
+  }
+}
+
 /// A source expression of the given element kind (scalar), possibly through a variable.
 fn scalar_source(rng: &mut Rng, m: &Model, kind: &str) -> Expr {
+  if kind == "f64" && FUNCTIONS_ON.with(|f| f.get()) && rng.chance(1, 4) { return call_source(rng, m); }
   let holders = names_where(m, |b| b.v.is_scalar() && b.v.kind_tag() == kind);
   if !holders.is_empty() && rng.chance(1, 3) {
     let n = (*rng.pick(&holders)).clone();
@@ -234,6 +257,14 @@ fn other_kind(rng: &mut Rng, kind: &str) -> String {
 }
 
 fn failing_source(rng: &mut Rng, k: &Knobs, m: &Model) -> Expr {
+  if k.functions && rng.chance(1, 3) {
+    return match rng.below(3) {
+      // fails inside the body, after the input and a local were bound
+      0 => Expr::Call("bad".into(), vec![Expr::Lit(gen_scalar(rng, "f64"))]),
+      1 => Expr::Call("inc".into(), vec![Expr::Lit(SV::Str("a".into()))]),
+      _ => Expr::Call("addtwo".into(), vec![Expr::Lit(gen_scalar(rng, "f64"))]),
+    };
+  }
   match rng.below(5) {
     0 => Expr::Var("nosuchvar".into()),
     1 => Expr::LitOp(SV::f64(1.0), Bop::Add, SV::Str("a".into())),
@@ -336,6 +367,7 @@ fn gen_define(rng: &mut Rng, k: &Knobs, m: &Model, fault: bool) -> Op {
     return Op::Define { name, mutable, annot: None, e };
   }
   let class = rng.pick(&k.classes).clone();
+  if k.functions && choice >= 7 && rng.chance(1, 2) { return Op::Define { name, mutable, annot: None, e: call_source(rng, m) }; }
   if choice == 9 && (class == "scalar" || class == "matrix") {
     // annotated define from an f64 literal: conversion at definition time
     let ik = rng.pick(&["u8", "i64", "u16", "i8", "f64", "u32", "u64", "i16", "i32", "f32", "u128", "i128"]).to_string();
